@@ -20,6 +20,9 @@ pub(super) struct MulAddFusion<F> {
     use_counts: HashMap<WitnessId, usize>,
     defs: HashMap<WitnessId, IndexedDef<F>>,
     backwards_computed: HashMap<WitnessId, usize>,
+    /// How many ops write each witness (as `out` or as a hint / non-primitive output). More
+    /// than one means the slot is shared through `connect` with another definition.
+    def_counts: HashMap<WitnessId, usize>,
     /// Witnesses set from outside the op list (private inputs): available before any op runs.
     inputs: hashbrown::HashSet<WitnessId>,
 }
@@ -42,6 +45,7 @@ impl<F: Field> MulAddFusion<F> {
             use_counts: HashMap::new(),
             defs: HashMap::with_capacity(ops.len()),
             backwards_computed: HashMap::new(),
+            def_counts: HashMap::new(),
             inputs: inputs.into_iter().collect(),
         };
         fusion.scan_use_counts(ops);
@@ -94,19 +98,45 @@ impl<F: Field> MulAddFusion<F> {
     fn scan_use_counts(&mut self, ops: &[Op<F>]) {
         for op in ops {
             match op {
-                Op::Alu { a, b, c, .. } => {
+                Op::Alu {
+                    kind,
+                    a,
+                    b,
+                    c,
+                    out,
+                    intermediate_out,
+                } => {
                     *self.use_counts.entry(*a).or_default() += 1;
                     *self.use_counts.entry(*b).or_default() += 1;
                     if let Some(c) = c {
                         *self.use_counts.entry(*c).or_default() += 1;
                     }
+                    // A Horner step reads its accumulator from `intermediate_out`.
+                    if *kind == AluOpKind::HornerAcc
+                        && let Some(acc) = intermediate_out
+                    {
+                        *self.use_counts.entry(*acc).or_default() += 1;
+                    }
+                    *self.def_counts.entry(*out).or_default() += 1;
                 }
-                Op::NonPrimitiveOpWithExecutor { inputs, .. } => {
+                Op::NonPrimitiveOpWithExecutor {
+                    inputs, outputs, ..
+                } => {
                     for &id in inputs.iter().flatten() {
                         *self.use_counts.entry(id).or_default() += 1;
                     }
+                    for &id in outputs.iter().flatten() {
+                        *self.def_counts.entry(id).or_default() += 1;
+                    }
                 }
-                _ => {}
+                Op::Const { out, .. } | Op::Public { out, .. } => {
+                    *self.def_counts.entry(*out).or_default() += 1;
+                }
+                Op::Hint { outputs, .. } => {
+                    for &id in outputs {
+                        *self.def_counts.entry(id).or_default() += 1;
+                    }
+                }
             }
         }
     }
@@ -214,6 +244,15 @@ impl<F: Field> MulAddFusion<F> {
 
         // Single-use, non-const mul
         if self.uses(&mul_result) != 1 || self.is_const(&mul_result) {
+            return None;
+        }
+
+        // After fusion the product only survives as the unconstrained `intermediate_out`, so
+        // its slot must not be shared (via `connect`) with an input or another op's output:
+        // the other users of that slot would lose the `a * b` relation.
+        if self.def_counts.get(&mul_result).copied().unwrap_or(0) != 1
+            || self.inputs.contains(&mul_result)
+        {
             return None;
         }
 
